@@ -5,6 +5,7 @@ import (
 	"fmt"
 	"math"
 	"math/big"
+	"math/rand/v2"
 	"reflect"
 	"sort"
 	"strings"
@@ -46,7 +47,28 @@ var ratTypes = map[string]reflect.Type{
 	"distuv.Uniform":      reflect.TypeOf(distuv.Uniform{}),
 	"distuv.Binomial":     reflect.TypeOf(distuv.Binomial{}),
 	"distuv.Bernoulli":    reflect.TypeOf(distuv.Bernoulli{}),
-	"mathext":             reflect.TypeOf(struct{}{}), // cases made of package-level calls only
+	"distuv.AlphaStable":  reflect.TypeOf(distuv.AlphaStable{}),
+	"distuv.Triangle":     reflect.TypeOf(distuv.Triangle{}), // built by NewTriangle (ratCtors)
+	"mathext":             reflect.TypeOf(struct{}{}),        // cases made of package-level calls only
+}
+
+// types whose fields are not exported are built by their constructor from the printed values.
+var ratCtors = map[string]func(p []float64, src rand.Source) reflect.Value{
+	"distuv.Triangle": func(p []float64, src rand.Source) reflect.Value {
+		if len(p) != 3 {
+			bad("harness: distuv.Triangle takes 3 values, %d given", len(p))
+		}
+		v := reflect.New(reflect.TypeOf(distuv.Triangle{})).Elem()
+		v.Set(reflect.ValueOf(distuv.NewTriangle(p[0], p[1], p[2], src)))
+		return v
+	},
+}
+
+// the statistical distance types of distuv that a "dist" node can name.
+var ratDists = map[string]any{
+	"distuv.Bhattacharyya":   distuv.Bhattacharyya{},
+	"distuv.Hellinger":       distuv.Hellinger{},
+	"distuv.KullbackLeibler": distuv.KullbackLeibler{},
 }
 
 // package-level functions that can be named by an "f" node.
@@ -81,14 +103,26 @@ type ratObj struct {
 type ratCheck struct {
 	ID  string          `json:"id"`
 	E   json.RawMessage `json:"e"`
-	K   string          `json:"k"` // rat | pinf | ninf | nan | panic | sign
+	K   string          `json:"k"` // rat | pinf | ninf | nan | panic | sign | support | freq
 	V   [3]int64        `json:"v"`
 	Tol string          `json:"tol"`
+	// k = support: every element of the vector named by E = ["v", name] lies in [Lo, Hi] (expressions; the
+	// closure of the support) and is an integer if Lat = 1.  k = freq: the fraction of the elements that are
+	// <= C (expression) is within V of P (expression): the empirical distribution function at C.
+	Lo  json.RawMessage `json:"lo,omitempty"`
+	Hi  json.RawMessage `json:"hi,omitempty"`
+	Lat int             `json:"lat,omitempty"`
+	C   json.RawMessage `json:"c,omitempty"`
+	P   json.RawMessage `json:"p,omitempty"`
 }
 
 type ratCase struct {
 	Obj    ratObj     `json:"obj"`
+	Steps  []ratStep  `json:"steps,omitempty"`
 	Checks []ratCheck `json:"checks"`
+	// Alts: alternative check lists (the two orientations of a sampler); the case holds when all
+	// checks of at least one alternative hold.
+	Alts [][]ratCheck `json:"alts,omitempty"`
 }
 
 // valueOf decodes the printed value n/d * 2^e exactly.
@@ -107,12 +141,34 @@ func floatOf(n, d, e int64) float64 {
 	return math.Ldexp(float64(n)/float64(d), int(e))
 }
 
-func buildObj(o ratObj) (reflect.Value, error) {
+func buildObj(o ratObj) (reflect.Value, error) { return buildObjSrc(o, nil) }
+
+// buildObjSrc builds the object with the given random source (nil: the default source).
+func buildObjSrc(o ratObj, src rand.Source) (rv reflect.Value, err error) {
 	t, ok := ratTypes[o.T]
 	if !ok {
 		return reflect.Value{}, fmt.Errorf("harness: unknown type %q", o.T)
 	}
+	if ctor, ok := ratCtors[o.T]; ok {
+		p := make([]float64, len(o.P))
+		for i, x := range o.P {
+			p[i] = floatOf(x[0], x[1], x[2])
+		}
+		// a constructor that rejects the printed parameters is a malformed table
+		out := core.Call(func() { rv = ctor(p, src) })
+		if out.Panicked {
+			return reflect.Value{}, fmt.Errorf("harness: constructor of %s%v panicked: %s", o.T, p, out.Text)
+		}
+		return rv, nil
+	}
 	v := reflect.New(t).Elem()
+	if src != nil {
+		f := v.FieldByName("Src")
+		if !f.IsValid() {
+			return reflect.Value{}, fmt.Errorf("harness: %s has no Src field", o.T)
+		}
+		f.Set(reflect.ValueOf(src))
+	}
 	k := 0
 	for i := 0; i < t.NumField(); i++ {
 		if t.Field(i).Type.Kind() != reflect.Float64 {
@@ -247,6 +303,45 @@ func eval(obj reflect.Value, raw json.RawMessage) ev {
 			a = append(a, eval(obj, r).v)
 		}
 		return leaf(callFloat(method(other, str(n[3])), str(n[3]), a))
+	case "v": // element n[2] of the environment vector n[1] (set by a step of the case)
+		vec, ok := curEnv[str(n[1])]
+		if !ok || int(num(n[2])) >= len(vec) {
+			bad("harness: no element %d of environment vector %q", num(n[2]), str(n[1]))
+		}
+		return leaf(vec[num(n[2])])
+	case "fld": // exported float64 field of the case's object
+		f := obj.FieldByName(str(n[1]))
+		if !f.IsValid() || f.Kind() != reflect.Float64 {
+			bad("harness: %s has no float64 field %s", obj.Type(), str(n[1]))
+		}
+		return leaf(f.Float())
+	case "dist": // ["dist", "distuv.Hellinger", "DistNormal", [t, p], [t, p]]
+		d, ok := ratDists[str(n[1])]
+		if !ok {
+			bad("harness: unknown distance type %s", str(n[1]))
+		}
+		m := reflect.ValueOf(d).MethodByName(str(n[2]))
+		if !m.IsValid() {
+			bad("harness: %s has no method %s", str(n[1]), str(n[2]))
+		}
+		in := make([]reflect.Value, 2)
+		for k := 0; k < 2; k++ {
+			var pair []json.RawMessage
+			if err := json.Unmarshal(n[3+k], &pair); err != nil || len(pair) != 2 {
+				bad("harness: malformed distance operand %s", n[3+k])
+			}
+			var o ratObj
+			o.T = str(pair[0])
+			if err := json.Unmarshal(pair[1], &o.P); err != nil {
+				bad("harness: malformed object parameters %s", pair[1])
+			}
+			v, err := buildObj(o)
+			if err != nil {
+				bad("%v", err)
+			}
+			in[k] = v
+		}
+		return leaf(m.Call(in)[0].Float())
 	case "f":
 		f, ok := ratFuncs[str(n[1])]
 		if !ok {
@@ -280,6 +375,21 @@ func eval(obj reflect.Value, raw json.RawMessage) ev {
 		v := math.Exp(a.v)
 		// an absolute error d of the argument is a relative error d of the value
 		return ev{v, math.Abs(v) * math.Max(1, a.s)}
+	case "sqrt":
+		a := eval(obj, n[1])
+		v := math.Sqrt(a.v)
+		return ev{v, math.Max(math.Abs(v), a.s/(2*math.Abs(v)))}
+	case "mvdist":
+		return leaf(mvDistance(obj, n))
+	case "mvm": // ["mvm", operand, "Entropy" | "LogProbAtMean" | "Dim"]
+		o := mvOperand(n[1])
+		switch f := str(n[2]); f {
+		case "LogProbAtMean":
+			mean := o.MethodByName("Mean").Call([]reflect.Value{reflect.ValueOf([]float64(nil))})[0]
+			return leaf(o.MethodByName("LogProb").Call([]reflect.Value{mean})[0].Float())
+		default:
+			return leaf(callFloat(o.MethodByName(f), f, nil))
+		}
 	case "log":
 		a := eval(obj, n[1])
 		v := math.Log(a.v)
@@ -306,6 +416,7 @@ type ratStats struct {
 	worst    map[string]string
 	n        map[string]int
 	seen     map[string]bool // signatures already reported
+	drift    []string        // cases skipped because the random source was consumed differently
 }
 
 func newRatStats() *ratStats {
@@ -322,6 +433,9 @@ func exprString(raw json.RawMessage) string {
 }
 
 func (c *ratCheck) verdict(obj reflect.Value, st *ratStats, where string) (bool, string) {
+	if c.K == "support" || c.K == "freq" {
+		return c.vectorCheck(obj, st, where)
+	}
 	var r ev
 	o := core.CallTimeout(20*time.Second, func() { r = eval(obj, c.E) })
 	if o.Hung {
@@ -424,6 +538,37 @@ func sig3(x float64) float64 {
 	return math.Round(x*m) / m
 }
 
+// stepString is a short rendering of the steps of a case for messages.
+func stepString(steps []ratStep) string {
+	var b strings.Builder
+	for i, st := range steps {
+		if i > 0 {
+			b.WriteString("; ")
+		}
+		switch st.Op {
+		case "let":
+			fmt.Fprintf(&b, "%s=%v", st.Name, vecOf(st.Vals))
+		case "call":
+			a := make([]string, len(st.Args))
+			for k, r := range st.Args {
+				a[k] = exprString(r)
+			}
+			fmt.Fprintf(&b, "%s(%s)", st.Fn, strings.Join(a, ", "))
+		case "rand":
+			fmt.Fprintf(&b, "Rand with source words %v (%s variate)", st.Words, st.Kind)
+		case "sample":
+			fmt.Fprintf(&b, "%d draws (PCG stream %d)", st.N, st.Salt)
+		case "samplemv":
+			fmt.Fprintf(&b, "%d draws by %s (PCG stream %d), coordinate %d", st.N, st.Kind, st.Salt, st.Comp)
+		}
+	}
+	s := b.String()
+	if len(s) > 300 {
+		s = s[:300] + "..."
+	}
+	return s
+}
+
 func objString(o ratObj) string {
 	var b strings.Builder
 	b.WriteString(o.T)
@@ -455,7 +600,7 @@ func replayRat(in *core.Lines, args []string, seed int64, sum *core.Summary) err
 			return fmt.Errorf("line %d: %v", in.N, err)
 		}
 		sum.Cases++
-		if len(c.Checks) > 0 {
+		if len(c.Checks) > 0 || len(c.Alts) > 0 {
 			sum.Nontrivial++
 		}
 		if in.N%23 == 1 {
@@ -477,6 +622,65 @@ func replayRat(in *core.Lines, args []string, seed int64, sum *core.Summary) err
 					panic(r)
 				}
 			}()
+			curEnv = map[string][]float64{}
+			if len(c.Steps) > 0 {
+				drift := false
+				o := core.Call(func() { obj = runSteps(&c, obj, seed) })
+				if o.Panicked {
+					switch e := o.Val.(type) {
+					case evalErr:
+						panic(e)
+					case stepDrift:
+						// another consumption pattern of the random source than the scripted one: not a verdict
+						drift = true
+						sum.Count("rand_protocol_drift", 1)
+						st.drift = append(st.drift, where+": "+e.why)
+					default:
+						sig := "dist:" + c.Obj.T + ".steps:panic"
+						sum.Count("failed_checks", 1)
+						if !st.seen[sig] {
+							st.seen[sig] = true
+							one := c
+							one.Checks = nil
+							sum.Fail(sig, fmt.Sprintf("%s: %s: %s", where, stepString(c.Steps), o.Text), one)
+						}
+						drift = true
+					}
+				}
+				if drift {
+					return
+				}
+				where += " after " + stepString(c.Steps)
+			}
+			if len(c.Alts) > 0 {
+				sum.Count("checks", 1)
+				var msgs []string
+				held := -1
+				for a, alt := range c.Alts {
+					all := true
+					for i := range alt {
+						if ok, msg := alt[i].verdict(obj, st, where); !ok {
+							all = false
+							msgs = append(msgs, fmt.Sprintf("%s: %s %s", alt[i].ID, exprString(alt[i].E), msg))
+							break
+						}
+					}
+					if all {
+						held = a
+						break
+					}
+				}
+				if held >= 0 {
+					sum.Count(fmt.Sprintf("orientation_%d", held+1), 1)
+				} else {
+					sig := "dist:" + c.Obj.T + "." + c.Alts[0][0].ID
+					sum.Count("failed_checks", 1)
+					if !st.seen[sig] {
+						st.seen[sig] = true
+						sum.Fail(sig, fmt.Sprintf("%s: env %v: neither orientation holds: %s", where, curEnv, strings.Join(msgs, " | ")), c)
+					}
+				}
+			}
 			for i := range c.Checks {
 				ck := &c.Checks[i]
 				sum.Count("checks", 1)
@@ -486,7 +690,7 @@ func replayRat(in *core.Lines, args []string, seed int64, sum *core.Summary) err
 					sum.Count("failed_checks", 1)
 					if !st.seen[sig] {
 						st.seen[sig] = true
-						one := ratCase{Obj: c.Obj, Checks: []ratCheck{*ck}}
+						one := ratCase{Obj: c.Obj, Steps: c.Steps, Checks: []ratCheck{*ck}}
 						sum.Fail(sig, fmt.Sprintf("%s: %s: %s %s", where, ck.ID, exprString(ck.E), msg), one)
 					}
 				}
@@ -504,9 +708,15 @@ func replayRat(in *core.Lines, args []string, seed int64, sum *core.Summary) err
 		keys = append(keys, k)
 	}
 	sort.Strings(keys)
+	if len(st.drift) > 0 {
+		if len(st.drift) > 5 {
+			st.drift = st.drift[:5]
+		}
+		sum.Extra["rand_protocol_drift_examples"] = st.drift
+	}
 	for _, k := range keys {
 		sum.Extra["checks_"+k] = st.n[k]
-		if k != "exact" {
+		if k != "exact" && k != "support" {
 			sum.Extra["max_error_over_tolerance_"+k] = sig3(st.maxRatio[k])
 			sum.Extra["worst_"+k] = st.worst[k]
 		}
